@@ -61,7 +61,7 @@ def program_space(rep: Report, t: str, rng: random.Random, runner: execbox.Runne
     # programs of the other properties' generator specs that run and print (identifier scenarios, function pairs, libraries)
     import crossfeed
     cross = [(k, p) for k, p, o in crossfeed.inputs(rep, t, rng, per_space=100 if t == "quick" else 1200)
-             if k.startswith(("rename:", "alpha:", "surface:")) and not o.get("safe")]
+             if k.startswith(("rename:", "alpha:", "surface:", "boolalg:", "ranges:")) and not o.get("safe")]
     cands = progs + variants + cross
     # inside the class of C01: terminates normally, twice, with identical output
     first = runner.observe_many([p for _, p in cands])
